@@ -905,7 +905,7 @@ def m_into_iter(ci):
 
 def m_step_by(ci):
     it, n = ci.args
-    if n[0] == "int" and n[1] >= 1 and it[0] == "adt" and it[1].endswith("ops::range::RangeFrom"):
+    if n[0] == "int" and n[1] >= 1 and it[0] == "adt" and (it[1].endswith("ops::range::RangeFrom") or it[1].endswith("ops::range::Range")):
         return ("iter", "step_by", it, n)
     return None
 
@@ -917,6 +917,21 @@ def progression_of(t):
     if t[0] == "iter" and t[1] == "step_by" and t[2][0] == "adt" and t[2][1].endswith("ops::range::RangeFrom"):
         return (t[2][4][0], t[3])
     return None
+
+
+def bounded_progression_of(t, other):
+    """(start, step) when `t` is (0..len(X)).step_by(s) and `other` is X.chunks(s): both sides of the zip have ceil(len(X)/s) items,
+    so the bounded progression behaves like the unbounded one"""
+    if not (t[0] == "iter" and t[1] == "step_by" and t[2][0] == "adt" and t[2][1].endswith("ops::range::Range") and len(t[2][4]) == 2):
+        return None
+    lo, hi = t[2][4]
+    if not (lo[0] == "int" and lo[1] == 0 and t[3][0] == "int"):
+        return None
+    if not (other[0] == "iter" and other[1] in ("chunks",) and other[3] == mk_int(t[3][1], "usize")):
+        return None
+    if hi != len_term(other[2]) and hi != ("len", other[2]):
+        return None
+    return (lo, t[3])
 
 
 def m_into_iter_value(ci, x):
@@ -1023,6 +1038,8 @@ def m_iter_next(ci):
     inner = src[2] if (src[0] == "iter" and src[1] == "enumerate") else src
     if src[0] == "iter" and src[1] == "zip":
         pa, pb = progression_of(src[2]), progression_of(src[3])
+        if pa is None and pb is None:
+            pa, pb = bounded_progression_of(src[2], src[3]), bounded_progression_of(src[3], src[2])
         if (pa is None) == (pb is None):
             return None
         # zip with an unbounded progression start + k*step never ends on that side: it is the other side's items, the k-th one
@@ -1467,6 +1484,20 @@ def apply_closure(ci, f, args, multi=None):
         fj = ev.fnrefs[f[1]]
         fn = ev.prog.fns.get((fj.get("resolved") or fj)["path"])
         argv = list(args)
+        rj = fj.get("resolved") or fj
+        if fn is None and rj["path"].endswith("::{constructor#0}"):
+            # a tuple-struct or tuple-variant constructor used as a function (`.map(Some)`, `.map(Offset)`): the aggregate itself
+            nm = re.sub(r"::<[^>]*>", "", rj["name"])
+            a = ev.adt(nm)
+            if a is not None and a.get("kind") == "struct":
+                v = ev.mk_adt(nm, a["variants"][0]["name"], tuple(args))
+            else:
+                parent, _, vname = nm.rpartition("::")
+                a = ev.adt(parent)
+                if a is None or not any(x["name"] == vname for x in a["variants"]):
+                    return None
+                v = ev.mk_adt(parent, vname, tuple(args))
+            return multi(v) if multi is not None else v
         if fn is None:
             # an external function item used as a closure (e.g. `fold(0, u8::wrapping_add)`): apply its model
             class _FCI:
